@@ -553,7 +553,7 @@ func keyClass(k string, allowedRealms []string) string {
 	case strings.HasPrefix(body, "vm:"):
 		for _, a := range allowedRealms {
 			if strings.HasPrefix(body, "vm:"+a+":") {
-				return "colon-key"
+				return "key-outside-grammar"
 			}
 		}
 		return "other-realm"
